@@ -386,6 +386,34 @@ theorem c16_restart_same_directory (h : Bytes → Bytes) (known : List Bytes) (S
   have hr : ∀ t ∈ S, Ready (startServer (initialDb h d pub) S) t := fun t ht => ready_startServer _ _ t (Or.inr ht)
   rw [c16_load_latest known S hS (proj pub rest) hev _ hr s k hs, content_startServer]
 
+/-- a directory event of the server with key `pub` that is not a close: a start (as a regular or as a
+temporary-directory server) or a storage call -/
+def OwnNoClose (pub : Bytes) : DEv → Prop
+  | .start srv _ => srv.pub = pub
+  | .call p _ _ => p = pub
+  | .close _ => False
+
+/-- **unclean stops**: a server that is never closed — the process dies and a new one is started on the same
+directory, any number of times, at any point of the history, as a regular or as a temporary-directory server
+(whose `closeDatabase` would have deleted the file) — finds every value a service saved before: a raw load
+returns the latest save of the same service under that key.  Nothing is kept back until `Close`: every call
+has reached the file when it returns (`db.Update`). -/
+theorem c16_unclean_stop_keeps (h : Bytes → Bytes) (known : List Bytes) (S : List Bytes)
+    (hS : PairwiseIndep S) (pub : Bytes) (hself : newName h pub ≠ oldName pub) (d : Dir) (srv : Server)
+    (hsrv : srv.pub = pub) (rest : List DEv) (hown : ∀ e ∈ rest, OwnNoClose pub e)
+    (hev : ∀ e ∈ proj pub rest, EvIn S e) (s k : Bytes) (hs : s ∈ S) :
+    ∃ db', (drun h known d (.start srv S :: rest)).1 (newName h pub) = some db' ∧
+      (step known db' s (.loadRaw k)).2 =
+        match lastSaved s k (proj pub rest) (content (initialDb h d pub) (mainName s) k) with
+        | none => .nothing
+        | some raw => .val raw := by
+  refine c16_restart_same_directory h known S hS pub hself d srv hsrv rest (fun e he => ?_) hev s k hs
+  have := hown e he
+  cases e with
+  | start sv l => exact .inl this
+  | call p sv op => exact .inl this
+  | close sv => exact absurd this (by simp [OwnNoClose])
+
 /-- on a fresh directory: nothing but what the service itself saved -/
 theorem c16_fresh_directory (h : Bytes → Bytes) (pub : Bytes) (n k : Bytes) :
     content (initialDb h Dir.empty pub) n k = none := rfl
